@@ -636,6 +636,9 @@ class Executor:
             return
         # a plain function item: resolve like any callee
         callee = fnval_o.text
+        parts = [x for x in strip_generics(callee).split("::") if x]
+        if len(parts) >= 2 and parts[-2] in self.enums and parts[-1] in self.enums[parts[-2]]:
+            return self.deliver(st, self.enum_value(parts[-2], parts[-1], list(args)), dest, ret_block, cont)
         self.calls_seen[callee] = self.calls_seen.get(callee, 0) + 1
         for rxp, fn in self.models:
             if rxp.search(callee):
@@ -829,7 +832,8 @@ class Executor:
                 # switch/assert decide before they touch the state, so the state itself is the snapshot;
                 # a call into a model may have mutated objects before it forks: snapshot those
                 kind = blk.term.kind if at_term else None
-                snap = st.clone() if kind == "call" and self._is_model_call(blk.term) else None
+                need = (kind == "call" and self._is_model_call(blk.term)) or (kind == "return" and fr.cont is not None)
+                snap = st.clone() if need else None
                 try:
                     self.step(st)
                 except Fork as f:
